@@ -583,14 +583,18 @@ def time_words_rule(ctx, chk, rule):
             continue
         if isinstance(s, ast.Assign) and len(s.targets) == 1 and isinstance(s.targets[0], ast.Name) and isinstance(s.value, ast.Constant):
             continue            # pattern constants
-        if isinstance(s, ast.Return):
+        if isinstance(s, ast.Return) and (isinstance(s.value, ast.Name) or s.value is None):
             chk.ob(rule, "_replace_time returns the result of its last rewriting", isinstance(s.value, ast.Name) and s.value.id == var, "returns %s" % ast.unparse(s.value),
                    key={"function": f.key, "construct": "return last stage"}, file=f.file, function=f.qual, line=s.lineno)
             continue
-        if not (isinstance(s, ast.Assign) and len(s.targets) == 1):
+        if isinstance(s, ast.Return):
+            # the last rewriting handed back at once: `return re.sub(.., .., current)`
+            tg, v = ast.Name(id="<returned>", ctx=ast.Store()), s.value
+        elif not (isinstance(s, ast.Assign) and len(s.targets) == 1):
             raise AnalysisError(rule, "_replace_time: statement outside the rewriting chain: %s" % ast.unparse(s)[:60])
-        tg = s.targets[0]
-        v = s.value
+        else:
+            tg = s.targets[0]
+            v = s.value
         subject = None
         if isinstance(v, ast.Call) and ast.unparse(v.func) in ("re.sub", "regex.sub") and len(v.args) >= 3:
             subject = v.args[2]
